@@ -6,6 +6,7 @@ import (
 	"crypto/rand"
 	"encoding/json"
 	"fmt"
+	"image"
 	"io/ioutil"
 	"math/big"
 	"net"
@@ -27,7 +28,6 @@ import (
 func init() { families["stack"] = runStack }
 
 const setupCode = "11122333"
-const setupCodeFmt = "111-22-333"
 
 type world struct {
 	dir     string
@@ -46,11 +46,15 @@ type world struct {
 	cbMu    sync.Mutex
 	cbLog   []string
 	accLTPK []byte
+	pin     string
 }
+
+func (w *world) code() string { return w.pin[:3] + "-" + w.pin[3:5] + "-" + w.pin[5:] }
 
 func canon(v interface{}) string {
 	b, _ := json.Marshal(v)
-	return string(b)
+	// observations are space separated: write spaces inside JSON strings as the JSON escape
+	return strings.Replace(string(b), " ", "\\u0020", -1)
 }
 
 // the fixed accessory set of the stack scenarios (ids are assigned by the library)
@@ -78,11 +82,16 @@ func buildAccessories() []*accessory.Accessory {
 	return []*accessory.Accessory{br.Accessory, lb.Accessory, th.Accessory, sw.Accessory}
 }
 
-func newWorld() (*world, error) {
+func newWorld(pin string, nacc int) (*world, error) {
 	w := &world{conns: map[string]*ctlConn{}, ids: map[string]*identity{}, setups: map[string]*setupRun{}, verifs: map[string]*verifyRun{}}
 	w.dir = tempDir()
 	w.accs = buildAccessories()
-	t, err := hc.NewIPTransport(hc.Config{StoragePath: w.dir, Pin: setupCode}, w.accs[0], w.accs[1:]...)
+	for i := 0; i < nacc; i++ {
+		lb := accessory.NewLightbulb(accessory.Info{Name: fmt.Sprintf("Extra %d", i), SerialNumber: fmt.Sprintf("CANARY-X-%d", i), Manufacturer: "verif", Model: "m"})
+		w.accs = append(w.accs, lb.Accessory)
+	}
+	w.pin = pin
+	t, err := hc.NewIPTransport(hc.Config{StoragePath: w.dir, Pin: pin}, w.accs[0], w.accs[1:]...)
 	if err != nil {
 		return nil, err
 	}
@@ -97,6 +106,10 @@ func newWorld() (*world, error) {
 				})
 			}
 		}
+	}
+	t.CameraSnapshotReq = func(width, height uint) (*image.Image, error) {
+		var img image.Image = image.NewRGBA(image.Rect(0, 0, 8, 8))
+		return &img, nil
 	}
 	w.t = t
 	go t.Start()
@@ -132,7 +145,7 @@ func (w *world) stored() string {
 		if len(e.PrivateKey) > 0 {
 			continue // the accessory's own entity
 		}
-		names = append(names, e.Name)
+		names = append(names, hx([]byte(e.Name)))
 	}
 	sort.Strings(names)
 	return "stored=" + strings.Join(names, "+")
@@ -157,6 +170,11 @@ func (w *world) find(id string) *characteristic.Characteristic {
 }
 
 func (w *world) ident(name string) *identity {
+	if strings.HasPrefix(name, "h") && len(name) > 1 && len(name)%2 == 1 {
+		if b, err := hexDecode(name[1:]); err == nil {
+			name = string(b)
+		}
+	}
 	if id, ok := w.ids[name]; ok {
 		return id
 	}
@@ -208,7 +226,20 @@ func runStack(id string, toks []string) (res string) {
 		}
 	}()
 	hclog.Info.SetOutput(ioutil.Discard)
-	w, err := newWorld()
+	if os.Getenv("HC_VERIF_DEBUG") == "1" {
+		hclog.Debug.Enable()
+		hclog.Info.SetOutput(os.Stderr)
+	}
+	pin, nacc := setupCode, 0
+	for _, op := range toks[1:] {
+		if strings.HasPrefix(op, "pin=") {
+			pin = op[4:]
+		}
+		if strings.HasPrefix(op, "nacc=") {
+			nacc, _ = strconv.Atoi(op[5:])
+		}
+	}
+	w, err := newWorld(pin, nacc)
 	if err != nil {
 		return "setup-error " + err.Error()
 	}
@@ -216,6 +247,9 @@ func runStack(id string, toks []string) (res string) {
 	var out []string
 	emit := func(s string) { out = append(out, s) }
 	for _, op := range toks[1:] {
+		if strings.HasPrefix(op, "tbl=") || strings.HasPrefix(op, "pin=") || strings.HasPrefix(op, "nacc=") {
+			continue
+		}
 		p := strings.Split(op, ":")
 		switch p[0] {
 		case "N":
@@ -240,12 +274,38 @@ func runStack(id string, toks []string) (res string) {
 			emit("cb=" + strings.Join(w.cbLog, ","))
 			w.cbLog = nil
 			w.cbMu.Unlock()
+		case "DUMP":
+			var rows []string
+			for _, a := range w.accs {
+				for _, sv := range a.Services {
+					for _, c := range sv.Characteristics {
+						perms := ""
+						for _, pm := range c.Perms {
+							switch pm {
+							case characteristic.PermRead:
+								perms += "r"
+							case characteristic.PermWrite:
+								perms += "w"
+							case characteristic.PermEvents:
+								perms += "e"
+							}
+						}
+						b := func(v interface{}) string {
+							if v == nil {
+								return "-"
+							}
+							return showVal(v)
+						}
+						rows = append(rows, fmt.Sprintf("%d.%d,%s,%s,%s,%s,%s", a.ID, c.ID, c.Format, perms, b(c.MinValue), b(c.MaxValue), showVal(c.Value)))
+					}
+				}
+			}
+			emit("tbl=" + strings.Join(rows, ";"))
 		case "TXT":
 			emit("sf=" + w.t.VerifTxtRecords()["sf"])
 		case "L":
 			c := w.find(p[1])
-			var v interface{}
-			json.Unmarshal([]byte(strings.Join(p[2:], ":")), &v)
+			v := tokenValue(strings.SplitN(strings.Join(p[2:], ":"), "@", 2)[0])
 			if f, ok := v.(float64); ok && c != nil && c.Format != characteristic.FormatFloat {
 				c.UpdateValue(int(f))
 			} else if c != nil {
@@ -257,6 +317,24 @@ func runStack(id string, toks []string) (res string) {
 			emit(w.pairVerify(p[1], p[2], p[3]))
 		case "Q":
 			emit(w.probePlain(p[1]))
+		case "B":
+			// B:<c>:<endpoint>:<hex body>  arbitrary bytes as the body of a request in the connection's current mode
+			cc := w.conns[p[1]]
+			if cc == nil || cc.dead {
+				emit("B=noconn")
+				continue
+			}
+			path := map[string]string{"ps": "/pair-setup", "pv": "/pair-verify", "pairings": "/pairings", "chars": "/characteristics", "resource": "/resource", "identify": "/identify"}[p[2]]
+			method := "POST"
+			if p[2] == "chars" {
+				method = "PUT"
+			}
+			r, err := cc.request(method, path, "application/octet-stream", unhex(p[3]))
+			if err != nil {
+				emit("B=closed")
+			} else {
+				emit(fmt.Sprintf("B=%d", r.status))
+			}
 		case "G", "A", "P", "R", "X", "E":
 			emit(w.httpOp(p))
 		default:
@@ -277,6 +355,11 @@ func (w *world) pairSetup(cn, ctrl, variant string) string {
 		s = &setupRun{cc: cc}
 		w.setups[cn] = s
 	}
+	if s.srp == nil {
+		// no exchange was started on this connection: the peer has no SRP session key; its best guesses
+		s.srp = &srpClient{K: []byte{}, A: big.NewInt(1), M1: []byte{0}}
+		s.sesKey = make([]byte, 32)
+	}
 	var parts []string
 	step := func(m map[byte][]byte, st int, err error) bool {
 		if err != nil {
@@ -291,7 +374,7 @@ func (w *world) pairSetup(cn, ctrl, variant string) string {
 	_ = emptyK
 	switch variant {
 	case "ok":
-		if step(s.m1()) && step(s.m3(setupCodeFmt, nil, false, false)) {
+		if step(s.m1()) && step(s.m3(w.code(), nil, false, false)) {
 			step(s.m5(nil, nil, id, id.priv, ""))
 		}
 	case "wrongcode":
@@ -300,19 +383,19 @@ func (w *world) pairSetup(cn, ctrl, variant string) string {
 		}
 	case "wrongproof":
 		if step(s.m1()) {
-			step(s.m3(setupCodeFmt, nil, true, false))
+			step(s.m3(w.code(), nil, true, false))
 			step(s.m5(nil, nil, id, id.priv, ""))
 		}
 	case "noproof":
 		if step(s.m1()) {
-			step(s.m3(setupCodeFmt, nil, false, true))
+			step(s.m3(w.code(), nil, false, true))
 			step(s.m5(nil, nil, id, id.priv, ""))
 		}
 	case "a0", "aN", "a2N", "aempty":
 		// invalid SRP public key, then a key exchange sealed under the key HKDF gives for an empty / zero secret
 		A := map[string][]byte{"a0": {0}, "aN": srpN.Bytes(), "a2N": new(big.Int).Lsh(srpN, 1).Bytes(), "aempty": {}}[variant]
 		if step(s.m1()) {
-			step(s.m3(setupCodeFmt, A, false, false))
+			step(s.m3(w.code(), A, false, false))
 			// the attacker's best guesses for the encryption key: all-zero bytes; HKDF of an empty secret
 			step(s.m5(zero, []byte{}, id, id.priv, ""))
 			s2 := &setupRun{cc: cc}
@@ -324,7 +407,7 @@ func (w *world) pairSetup(cn, ctrl, variant string) string {
 	case "start":
 		step(s.m1())
 	case "m3":
-		step(s.m3(setupCodeFmt, nil, false, false))
+		step(s.m3(w.code(), nil, false, false))
 	case "m3wrong":
 		step(s.m3("999-99-999", nil, false, false))
 	case "m5":
@@ -478,6 +561,9 @@ func (w *world) httpOp(p []string) string {
 	do := func(method, path, ctype string, body []byte) (*httpResp, string) {
 		r, err := cc.request(method, path, ctype, body)
 		if err != nil {
+			if os.Getenv("HC_VERIF_DEBUG") == "2" {
+				fmt.Fprintln(os.Stderr, "client error:", method, path, err)
+			}
 			return nil, "closed"
 		}
 		return r, ""
@@ -521,11 +607,9 @@ func (w *world) httpOp(p []string) string {
 		aid, _ := strconv.Atoi(ids[0])
 		iid, _ := strconv.Atoi(ids[1])
 		m["aid"], m["iid"] = aid, iid
-		val := strings.Join(p[3:len(p)-1], ":")
+		val := strings.SplitN(strings.Join(p[3:len(p)-1], ":"), "@", 2)[0]
 		if val != "-" {
-			var v interface{}
-			json.Unmarshal([]byte(val), &v)
-			m["value"] = v
+			m["value"] = tokenValue(val)
 		}
 		if ev := p[len(p)-1]; ev != "-" {
 			m["ev"] = ev == "1"
@@ -603,6 +687,39 @@ func (w *world) httpOp(p []string) string {
 		return "E=" + strings.Join(evs, ";")
 	}
 	return "bad"
+}
+
+// tokenValue turns the value token of a case line into the Go value encoding/json would produce
+func tokenValue(val string) interface{} {
+	switch {
+	case val == "OBJ":
+		return map[string]interface{}{"k": "1"}
+	case val == "ARR":
+		return []interface{}{"1", 1.0}
+	case strings.HasPrefix(val, "J"):
+		b, _ := hexDecode(strings.SplitN(val[1:], "~", 2)[0])
+		var v interface{}
+		json.Unmarshal(b, &v)
+		return v
+	}
+	var v interface{}
+	json.Unmarshal([]byte(val), &v)
+	return v
+}
+
+func hexDecode(s string) ([]byte, error) {
+	if len(s)%2 != 0 {
+		return nil, fmt.Errorf("odd")
+	}
+	b := make([]byte, len(s)/2)
+	for i := range b {
+		v, err := strconv.ParseUint(s[2*i:2*i+2], 16, 8)
+		if err != nil {
+			return nil, err
+		}
+		b[i] = byte(v)
+	}
+	return b, nil
 }
 
 var _ = ed25519.Sign
